@@ -644,7 +644,7 @@ func registerStubs(e *Engine) {
 				if res.Len() == 1 && len(args) > 0 && fr.fn.Signature.Recv() != nil && types.Identical(res.At(0).Type(), fr.fn.Signature.Recv().Type()) {
 					return args[0]
 				}
-				return zeroOrOpaque(fr.fn)
+				return envResultsCtx(fr.fn.Signature, args)
 			}
 		}})
 	}
@@ -682,6 +682,39 @@ func envResults(sig *types.Signature) value {
 		t[i] = mk(res.At(i).Type())
 	}
 	return t
+}
+
+// envResultsCtx is envResults, except that a context.Context result is the context the
+// call was given (a tracer's Start returns a context derived from its argument: values,
+// cancellation and deadline are those of the parent).
+func envResultsCtx(sig *types.Signature, args []value) value {
+	r := envResults(sig)
+	var ctx value
+	for _, a := range args {
+		if i, ok := a.(iface); ok && i.t == engCtxType.named {
+			ctx = a
+			break
+		}
+	}
+	if ctx == nil {
+		return r
+	}
+	isCtx := func(t types.Type) bool { return t.String() == "context.Context" }
+	res := sig.Results()
+	if res.Len() == 1 {
+		if isCtx(res.At(0).Type()) {
+			return ctx
+		}
+		return r
+	}
+	if t, ok := r.(tuple); ok {
+		for i := range t {
+			if isCtx(res.At(i).Type()) {
+				t[i] = ctx
+			}
+		}
+	}
+	return r
 }
 
 func isConcreteStr(v value) bool { _, ok := v.(string); return ok }
